@@ -171,6 +171,11 @@ class sptensor:
             # In case user provides an empty array in weird format
             vals = np.array([], dtype=vals.dtype, ndmin=2)
 
+        if subs.dtype != np.int64 and np.issubdtype(subs.dtype, np.integer):
+            # Subscripts meet library-generated int64 subscripts: stacking uint64 and
+            # int64 rows gives float64, and arithmetic in a narrow dtype wraps around
+            subs = subs.astype(np.int64)
+
         if copy:
             self.subs = subs.copy()
             self.vals = vals.copy()
